@@ -15,6 +15,7 @@ pub mod c12;
 pub mod c13;
 pub mod c14;
 pub mod c15;
+pub mod c16;
 
 use crate::evidence::Shard;
 use crate::runner::{Ctx, Plan};
@@ -35,6 +36,7 @@ pub fn plan_for(id: &str) -> Option<Plan> {
         "C13" => c13::plan(),
         "C14" => c14::plan(),
         "C15" => c15::plan(),
+        "C16" => c16::plan(),
         _ => return None,
     })
 }
@@ -55,6 +57,7 @@ pub fn shard_for(id: &str, ctx: &Ctx) -> Option<Shard> {
         "C13" => c13::shard(ctx),
         "C14" => c14::shard(ctx),
         "C15" => c15::shard(ctx),
+        "C16" => c16::shard(ctx),
         _ => return None,
     })
 }
